@@ -12,7 +12,7 @@ CONSTANTS
   Durs = {3600}
   Timeouts = {300, 1800}
   UpdOps = {}
-  Replicas = {1, 2}
+  Replicas = {2}
 PROPERTY EventuallySettled
 PROPERTY EventuallyGone
 CHECK_DEADLOCK FALSE
